@@ -16,6 +16,14 @@
    its + and *;  sden : sval T -> T  is the denotation of values and sentinels
    (zero -> 0, one -> 1).
    Non-vacuity examples: PySeries/C18Examples.v, PySeries/C18Refuted.v.
+
+   All value theorems have the form "IF a value is returned THEN it denotes the sum".
+   The model (like the code) can instead raise: exceptions of the factors' evals, and
+   TypeError / SympifyError of the sentinel arithmetic when `one` is not the only
+   non-zero term of an element (`one + x`, `x + one`, `Dagger(one)` in the half-sum).
+   The latter is the KNOWN FINDING C18-one-plus-term (known_findings.json); the invalid
+   half-sum for non-adjoint factors is the KNOWN FINDING C18-halfsum-nonadjoint
+   (C18_herm_halfsum_refuted below).
 *)
 
 Require Import Ncring Setoid Morphisms List Bool.
